@@ -98,6 +98,18 @@ def circle_optional_s(env, tag="C"):
     return SH.Sh("Circle[r(t,s=1)]", tp.domains.Circle(X, c.tp(), r.tp()), o, TS, [("x", 2)], bd_volume=o.surface)
 
 
+def rotate_angle_ts(env, tag="R"):
+    """rotation whose ANGLE is one user function of both variables, w(t, s), about a symbolic pivot"""
+    a = SH.circle(env, tag=tag + "A")
+    ang = Aff2(env, tag + "w", 1)
+    piv = SH.Aff(env, tag + "p", 2, None)
+    dom = tp.domains.Rotate.from_angles(a.dom, ang.tp(), rotate_around=piv.tp())
+    angle = ang.oracle()
+    L_ = env.L
+    o = O.ORotate2D(a.oset, lambda prm: L_.cossin(angle(prm)[0]), piv.oracle())
+    return SH.Sh("Rotate[w(t,s)](Circle)", dom, o, TS, a.space_vars, closed_form=a.closed_form)
+
+
 def interval_ts(env, tag="I", var="x"):
     X = tp.spaces.R1(var)
     lb, ub = SH.Aff(env, tag + "lb", 1, "s"), SH.Aff(env, tag + "ub", 1, "t")
@@ -152,6 +164,7 @@ def shapes_catalog(tier):
     out.append(("Rotate[s;pivot(t)](Circle[t])",
                 lambda env: SH.rotate(env, SH.circle(env, tag="A", dep="t"), dep="s", around_dep="t"),
                 dict(fam="transform", sample=True)))
+    out.append(("Rotate[w(t,s)](Circle)", rotate_angle_ts, dict(fam="transform", sample=False)))
     if not quick:
         out.append(("Rotate[s](Parallelogram[t])", lambda env: SH.rotate(env, SH.parallelogram(env, tag="A", dep="t"), dep="s"),
                     dict(fam="transform", sample=True)))
